@@ -84,6 +84,8 @@ structure World where
   history of acknowledged requests: the first open sets it, further opens can only enable it,
   set-sync sets it, the last close forgets it -/
   syncSpec : List ((Nat × Bytes) × Bool) := []
+  /-- subscribers of an open document according to the history of acknowledged requests -/
+  subsSpec : List ((Nat × Bytes) × Nat) := []
   /-- specification bookkeeping for C14: handles per (actor, document) = opens − releases -/
   handleCounts : List ((Nat × Bytes) × Nat) := []
 
@@ -914,6 +916,19 @@ def step (w : World) (line : String) : World × String :=
           | .close ns, .okBool true => setS w ns none
           | .dropReplica ns, .ok => setS w ns none
           | _, _ => w
+        -- subscribers according to the history (C14 specification `ssubs`): an acknowledged open with
+        -- a subscription or an acknowledged subscribe adds one, an unsubscribe removes one, closing
+        -- the last handle (or dropping the document) forgets them
+        let getN := fun (w : World) (ns : Bytes) => (w.subsSpec.lookup (sid, ns)).getD 0
+        let setN := fun (w : World) (ns : Bytes) (n : Nat) =>
+          { w with subsSpec := ((sid, ns), n) :: w.subsSpec.filter (·.1 != (sid, ns)) }
+        let w := match a, r with
+          | .openR ns _ true, .ok => setN w ns (getN w ns + 1)
+          | .subscribe ns, .ok => setN w ns (getN w ns + 1)
+          | .unsubscribe ns, .ok => setN w ns (getN w ns - 1)
+          | .close ns, .okBool true => setN w ns 0
+          | .dropReplica ns, .ok => setN w ns 0
+          | _, _ => w
         -- capability history of the actor's store (for the C07 specification `swritable`): a
         -- successful import is recorded, a successful drop forgets the document
         let hist := (w.imports.lookup sid).getD []
@@ -962,6 +977,11 @@ def step (w : World) (line : String) : World × String :=
       let hist := (w.imports.lookup sid).getD []
       ({ w with imports := (sid, hist.filter (·.1 != ns)) :: w.imports.filter (·.1 != sid) }, "ok")
     | _, _ => (w, "bad-op")
+  -- specification: the number of subscribers of an open document according to the request history
+  | ["ssubs", sid, ns] =>
+    match parseNat? sid, Bytes.ofHex ns with
+    | some sid, some ns => (w, toString ((w.subsSpec.lookup (sid, ns)).getD 0))
+    | _, _ => (w, "bad-op")
   -- specification: the sync switch of an open document according to the request history
   | ["ssync", sid, ns] =>
     match parseNat? sid, Bytes.ofHex ns with
@@ -989,6 +1009,13 @@ def step (w : World) (line : String) : World × String :=
     | some sid, some ns, some kind, some raw =>
       (w.setEv sid { t := (Tables.importNamespace {} ns kind raw).1 } 0, "ok")
     | _, _, _, _ => (w, "bad-op")
+  | ["eimport", sid, ns, kind, raw] =>
+    match parseNat? sid, Bytes.ofHex ns, parseNat? kind, Bytes.ofHex raw with
+    | some sid, some ns, some kind, some raw =>
+      match w.getEv sid with
+      | some (s, c) => (w.setEv sid (Events.importCap s ns kind raw) c, "ok")
+      | none => (w, "no-store")
+    | _, _, _, _ => (w, "bad-op")
   | ["esub", sid, id] =>
     match parseNat? sid, parseNat? id with
     | some sid, some id =>
@@ -1015,7 +1042,7 @@ def step (w : World) (line : String) : World × String :=
     | some sid, some e =>
       match w.getEv sid with
       | some (s, c) =>
-        let (s', r) := Events.localInsert s e
+        let (s', r) := Events.localInsertCap s e
         (w.setEv sid s' c, showInsertResult r)
       | none => (w, "no-store")
     | _, _ => (w, "bad-op")
@@ -1043,8 +1070,8 @@ def step (w : World) (line : String) : World × String :=
     | some sid, some e =>
       match w.getEv sid with
       | some (s, c) =>
-        let (s', r) := Events.localInsert s e
-        (w.setEv sid s' c, match r with | .inserted _ => "inserted" | _ => "notinserted")
+        let (s', r) := Events.localInsertCap s e
+        (w.setEv sid s' c, match r with | .inserted _ => "inserted" | .notInserted => "notinserted" | r => showInsertResult r)
       | none => (w, "no-store")
     | _, _ => (w, "bad-op")
   | ["eremoteres", sid, ns, now, peer, status, tok] =>
